@@ -82,11 +82,12 @@ class SimFS:
     spec = fault.get('prefix', 'all')
     for h in list(self.handles):
       if h.created and not getattr(h, 'orphan', False):
-        n = _prefix_len(len(h.buf), spec)
-        self.files[h.path] = bytes(h.buf[:n])
-        if 0 < n < len(h.buf):
+        tot = h.pending_bytes()
+        n = _prefix_len(tot, spec)
+        self.files[h.path] = h.image(n)
+        if 0 < n < tot:
           self._count('crash_torn_write')
-        elif n == 0 and len(h.buf):
+        elif n == 0 and tot:
           self._count('crash_lost_buffer')
     self.handles = []
     self.dead = True
@@ -123,7 +124,7 @@ class SimFS:
       self.observer(self, idx, kind, path)
 
   def _buffered(self):
-    return sum(len(h.buf) for h in self.handles if h.created)
+    return sum(h.pending_bytes() for h in self.handles if h.created)
 
   def reboot(self):
     """New process: handles and the dead flag go, files stay."""
@@ -298,20 +299,55 @@ class SimReadHandle(io.RawIOBase):
 
 
 class SimWriteHandle:
-  """Write handle with a user-space buffer; see module docstring."""
+  """Write handle with a user-space buffer; see module docstring.
+
+  `base` is the image the kernel has (durable across a process crash); `pending` the writes still in the user-space
+  buffer, as (position, bytes).  A crash applies a prefix (by byte count) of the pending writes to `base`.
+  """
 
   def __init__(self, fs, path, binary, append, encoding, werr):
     self.fs, self.path, self.binary = fs, path, binary
     self.encoding = encoding
-    self.buf = bytearray(fs.files.get(path, b'') if append else b'')
+    self.base = bytearray(fs.files.get(path, b'') if append else b'')
+    self.pending = []
+    self.pos = len(self.base)
     self.created = False
     self.closed = False
+    self.orphan = False
     self.werr = werr  # exception factory for injected write errors (GFile)
     self.name = path
 
+  # -- images ----------------------------------------------------------
+  def pending_bytes(self):
+    return sum(len(d) for _, d in self.pending)
+
+  def image(self, nbytes=None):
+    """base overlaid with the first nbytes bytes of the pending writes (all if None)."""
+    img = bytearray(self.base)
+    left = self.pending_bytes() if nbytes is None else nbytes
+    for pos, d in self.pending:
+      if left <= 0:
+        break
+      d = d[:left]
+      left -= len(d)
+      if pos > len(img):
+        img.extend(b'\0' * (pos - len(img)))
+      img[pos:pos + len(d)] = d
+    return bytes(img)
+
+  @property
+  def buf(self):
+    return self.image()
+
+  def _sync(self):
+    self.base = bytearray(self.image())
+    self.pending = []
+    if not self.orphan:
+      self.fs.files[self.path] = bytes(self.base)
+
   def _create(self):
     def do():
-      self.fs.files[self.path] = bytes(self.buf)
+      self.fs.files[self.path] = bytes(self.base)
       self.fs.handles.append(self)
       self.created = True
       self.fs.write_log.append(self.path)
@@ -328,12 +364,18 @@ class SimWriteHandle:
       data = bytes(data)
     if not self.created:
       self._create()
+
+    def do():
+      self.pending.append((self.pos, data))
+      self.pos += len(data)
     try:
-      self.fs.effect('write', self.path, len(data),
-                     do=lambda: self.buf.extend(data))
+      self.fs.effect('write', self.path, len(data), do=do)
     except OSError as e:
       part = getattr(e, 'partial', 0)
-      self.buf.extend(data[:_prefix_len(len(data), part)])
+      d = data[:_prefix_len(len(data), part)]
+      if d:
+        self.pending.append((self.pos, d))
+        self.pos += len(d)
       if self.werr is not None:
         raise self.werr(str(e)) from None
       raise
@@ -342,10 +384,45 @@ class SimWriteHandle:
   def writable(self):
     return True
 
+  def seekable(self):
+    return True
+
+  def tell(self):
+    return self.pos
+
+  def seek(self, off, whence=0):
+    if whence == 0:
+      self.pos = off
+    elif whence == 1:
+      self.pos += off
+    else:
+      self.pos = len(self.image()) + off
+    return self.pos
+
+  def truncate(self, size=None):
+    """ftruncate: the buffered data is flushed first, then the size changes at once (a metadata operation)."""
+    if not self.created:
+      self._create()
+    size = self.pos if size is None else size
+
+    def do():
+      self._sync()
+      if size < len(self.base):
+        del self.base[size:]
+      else:
+        self.base.extend(b'\0' * (size - len(self.base)))
+      if not self.orphan:
+        self.fs.files[self.path] = bytes(self.base)
+    self.fs.effect('truncate', self.path, size, do=do)
+    return size
+
+  def fileno(self):
+    raise io.UnsupportedOperation('simulated file has no descriptor')
+
   def flush(self):
-    if self.closed or not self.created or self.fs.dead or getattr(self, 'orphan', False):
+    if self.closed or not self.created or self.fs.dead:
       return
-    self.fs.files[self.path] = bytes(self.buf)
+    self._sync()
 
   def close(self):
     if self.closed:
@@ -355,8 +432,7 @@ class SimWriteHandle:
       return
 
     def do():
-      if not getattr(self, 'orphan', False):
-        self.fs.files[self.path] = bytes(self.buf)
+      self._sync()
       if self in self.fs.handles:
         self.fs.handles.remove(self)
     try:
